@@ -195,7 +195,7 @@ def gen_graph(rng: common.Rng, n: int, shape: str) -> list[list[int]]:
                 preds[b].add(a)
         if n == 1:
             preds[0].add(0)
-    else:  # "mixed": several SCCs chained by weak couplings
+    else:  # "mixed" / "groups": several SCCs chained by weak couplings
         groups: list[list[int]] = []
         idx = list(range(n))
         rng.shuffle(idx)
@@ -212,6 +212,11 @@ def gen_graph(rng: common.Rng, n: int, shape: str) -> list[list[int]]:
             preds[rng.pick(groups[gi])].add(src)
             if rng.chance(0.3):
                 preds[rng.pick(groups[gi])].add(rng.pick(groups[rng.randrange(gi)]))
+        if shape == "groups":
+            # no weakly coupled discipline: a discipline alone in its component is self-coupled
+            for g in groups:
+                if len(g) == 1:
+                    preds[g[0]].add(g[0])
     if rng.chance(0.4):
         preds[rng.randrange(n)].add(rng.randrange(n))  # possibly a self-coupling
     if rng.chance(0.25):
@@ -231,7 +236,7 @@ def _budget_row(rng: common.Rng, n_cols: int, budget: Fraction, den: int) -> lis
 
 def gen_system(rng: common.Rng, shape: str | None = None, kind: str | None = None, private: bool | None = None) -> dict[str, Any]:
     n = rng.pick([2, 2, 3, 3, 4, 5])
-    shape = shape or rng.pick(["strong", "strong", "mixed"])
+    shape = shape or rng.pick(["strong", "strong", "strong", "mixed", "mixed", "groups"])
     kind = kind or rng.pick(["lin", "lin", "lin", "lin", "rat", "sin"])
     kbound = rng.pick([Fraction(1, 2), Fraction(1, 2), Fraction(1, 4), Fraction(1, 8)])
     den = rng.pick([8, 16, 32, 64])
@@ -423,6 +428,8 @@ def gen_case(
     case["mda"] = gen_mda(rng, system, cls)
     m = case["mda"]
     direct = m["cls"] in DIRECT_ON_WEAK and not (m["cls"] == "MDASequential" and "MDANewtonRaphson" in m["seq"])
+    if system["shape"] != "strong" and not has_weak_disciplines(case):
+        direct = True  # several strongly coupled groups, no weakly coupled discipline: every class accepts them
     if system["shape"] != "strong" and m["cls"] != "MDAChain" and not (direct and (m["cls"] == "MDAJacobi" or rng.chance(0.6))):
         # MDANewtonRaphson (hence MDAGSNewton, sequences with a Newton stage) rejects weakly coupled disciplines
         # with a documented ValueError ("use MDAChain"): these are solved through MDAChain, and so is a share of
@@ -738,9 +745,16 @@ def case_class(case: dict[str, Any]) -> str:
     """Stable classification of a case (prefix of the violation keys)."""
     m = case["mda"]
     cls = m["cls"]
-    if cls != "MDAChain" and cls != "MDAJacobi" and case.get("shape") != "strong" and has_weak_disciplines(case):
-        # an elementary MDA that only monitors the strong couplings, used directly on weakly coupled disciplines
-        return f"elementary-mda-on-weak-couplings:{cls}"
+    accel, omega = effective_transform(case)
+    if accel != "NoTransformation" and Fraction(omega) != 1:
+        # an acceleration fed by GEMSEO's two-step over-relaxation: classified by the acceleration only
+        return f"relaxed-acceleration:{accel}"
+    if cls != "MDAChain" and cls != "MDAJacobi" and case.get("shape") != "strong":
+        # an elementary MDA used directly on several strongly connected components
+        if has_weak_disciplines(case):
+            return f"elementary-mda-on-weak-couplings:{cls}"
+        if len(scc_sequence(case)) > 1 and not case.get("groups"):
+            return f"elementary-mda-on-several-groups:{cls}"
     if cls == "MDAChain":
         cls += "/" + m["inner"]
     if cls.endswith("MDAQuasiNewton"):
@@ -1071,6 +1085,13 @@ def protocol_lines(case: dict[str, Any]) -> list[str]:
         lines.append(f"chain {int(m['max_iter']) + 2} {common.rats(consts)} {common.rats(start)}")
         return lines
     cpl = sysm.couplings
+    if case["shape"] != "strong" and not has_weak_disciplines(case):
+        # MDAJacobi on several groups of strongly coupled disciplines resolves the strong couplings of the groups
+        cpl = sorted(
+            v
+            for comp in scc_sequence(case)
+            for v in {i for k in comp for i in sysm.discs[k]["ins"]} & {o for k in comp for o in sysm.discs[k]["outs"]}
+        )
     res = [off[o] + r for o in cpl for r in range(sizes[o])]
     groups, pos = [], 0
     for o in cpl:
@@ -1474,6 +1495,8 @@ def evaluate(res: Result, cases: list[dict[str, Any]], rng: common.Rng, scope: b
             res.count("api=" + extra["api"])
         if kc.startswith("elementary-mda-on-weak-couplings"):
             res.count("direct-on-weak=" + m["cls"])
+        if kc.startswith("elementary-mda-on-several-groups"):
+            res.count("direct-on-several-strongly-coupled-groups=" + m["cls"])
         iters = [len(r.get("history", [])) for r in obs.get("runs", [])]
         if any(i >= 2 for i in iters) or m["cls"] in ("MDAQuasiNewton", "MDAChain"):
             res.nontrivial(json.dumps([case["discs"], case["order"], m, case["runs"]], sort_keys=True))
@@ -1599,7 +1622,11 @@ def run(ctx) -> Result:
         # compositions: MDAChain over process disciplines (MDOChain / MDOParallelChain / MDA), settings models
         lambda: gen_case(rng, cls="MDAChain", grouped=rng.chance(0.7)),
         # elementary MDAs used directly on systems with several strongly connected components
-        lambda: gen_case(rng, shape="mixed", cls=rng.pick(["MDAGaussSeidel", "MDAGaussSeidel", "MDAQuasiNewton", "MDASequential", "MDAJacobi"])),
+        lambda: gen_case(
+            rng,
+            shape=rng.pick(["mixed", "mixed", "groups"]),
+            cls=rng.pick(["MDAGaussSeidel", "MDAGaussSeidel", "MDAQuasiNewton", "MDAQuasiNewton", "MDASequential", "MDAJacobi", "MDANewtonRaphson", "MDAGSNewton"]),
+        ),
     ]
     for mk in streams:
         done = 0
